@@ -45,6 +45,7 @@ class SimLock:
         self.reentrant = reentrant
         self.owner = None
         self.count = 0
+        self.ext = 0          # held this many times by a non-simulated thread (the set-up phase)
         self._real = _real_rlock() if reentrant else _real_lock()
 
     def acquire(self, blocking=True, timeout=-1):
@@ -56,10 +57,16 @@ class SimLock:
             if blocking and timeout < 0:
                 if not self._real.acquire(True, 8.0):
                     raise RuntimeError("selfies lock still held by a call that has returned")
+                self.ext += 1
                 return True
-            return self._real.acquire(blocking, timeout)
+            ok = self._real.acquire(blocking, timeout)
+            if ok:
+                self.ext += 1
+            return ok
         S.lock_ops += 1
-        while self.owner is not None and not (self.reentrant and self.owner == tid):
+        # a lock the set-up phase (rejected update, ...) left held is held for good: its owner is the
+        # coordinating thread, which waits for the simulated threads
+        while self.ext > 0 or (self.owner is not None and not (self.reentrant and self.owner == tid)):
             if not blocking:
                 return False
             S.block(tid, self)
@@ -71,6 +78,7 @@ class SimLock:
         tid = getattr(_tl, "tid", None)
         S = _S
         if tid is None or S is None:
+            self.ext = max(0, self.ext - 1)
             return self._real.release()
         if self.owner is None:
             raise RuntimeError("release unlocked lock")
@@ -546,6 +554,11 @@ def run(sf, spec):
     if spec["policy"].get("gran") == "native-line":
         native_line_mode()
     apply_table(sf, spec["table"])
+    from .calls import outcome, parse_arg
+    for lit in spec.get("pre", ()):
+        # fault in the history before the concurrent phase: a configuration update that is rejected
+        # (the table stays fixed); whatever it leaves behind is part of the state the threads meet
+        outcome(sf.set_semantic_constraints, parse_arg(lit))
     n = len(spec["threads"])
     rng = random.Random(spec["seed"]) if spec.get("explicit") is None else None
     S = Sched(n, spec["policy"], rng, spec.get("explicit"), spec["budget"])
@@ -597,10 +610,12 @@ def run(sf, spec):
     }
 
 
-def run_alone(sf, K, call, gran="instr"):
+def run_alone(sf, K, call, gran="instr", pre=()):
     """One call on one simulated thread, no switching: its step count (for the
     PCT change points and the liveness budget) and its result (must equal the
     uninstrumented oracle's)."""
     rec = run(sf, {"table": K, "threads": [[call]], "policy": {"kind": "random", "p": 0.0, "gran": gran},
-                   "seed": "alone", "budget": 10 ** 9, "probes": []})
+                   "seed": "alone", "budget": 10 ** 9, "probes": [], "pre": list(pre)})
+    if rec["outcome"] != "ok":
+        return None, rec["steps"], rec["harness_error"] or ("outcome:" + rec["outcome"])
     return rec["results"][0][0], rec["steps"], rec["harness_error"]
